@@ -348,6 +348,8 @@ def run(rep, tier):
     # R9: an evaluation the source guarded with `and` / `or` (typically a subscript) must stay guarded (import of C07-R10)
     from . import c07
     c07.rule_rewrite_evaluations(c01._Rename(rep, {'R10': 'R9'}), idx)
+    # R10: array elements are addressed as base + index (import of C01-R16: a mis-folded subscript reaches beyond the array)
+    c01.rule_subscripts(c01._Rename(rep, {'R16': 'R10'}), idx)
 
 
 def optimise(idx, X, items):
